@@ -20,6 +20,10 @@ type memFile struct {
 
 func (m *memFile) Write(p []byte) (int, error) {
 	end := m.pos + int64(len(p))
+	if end > 1<<32 || end < 0 {
+		// like a real file: writing at an absurd offset fails (EFBIG), it does not crash
+		return 0, fmt.Errorf("memFile: file too large (write at offset %d)", m.pos)
+	}
 	if end > int64(len(m.b)) {
 		m.b = append(m.b, make([]byte, end-int64(len(m.b)))...)
 	}
